@@ -10,7 +10,9 @@ package ref
 
 import (
 	"errors"
+	"fmt"
 	"math/big"
+	"time"
 
 	"github.com/libsv/go-bt/v2"
 
@@ -37,6 +39,8 @@ type FeeQuote struct {
 	// registered under, whatever the fee object says about itself.
 	StdTag  int `json:"std_tag,omitempty"`
 	DataTag int `json:"data_tag,omitempty"`
+	// Build says how FeeQuoteBuild fills the library object (FeeBuild*).
+	Build int `json:"build,omitempty"`
 }
 
 // Values of FeeQuote.StdTag / DataTag.
@@ -206,4 +210,244 @@ func FeeSumOut(tx Tx) *big.Int {
 		s.Add(s, new(big.Int).SetUint64(o.Sats))
 	}
 	return s
+}
+
+// ---------------------------------------------------------------------------
+// Quote objects as a caller builds and updates them (round 6).
+//
+// A *bt.FeeQuote can be filled and changed through several exported ways, and the *bt.Fee
+// objects involved are ordinary caller-owned values: the same pointer may be registered under
+// both types and in several quotes, objects obtained from the library (Fee) may be fed back
+// into AddQuote / UpdateMinerFees. Whatever the way, a quote answers by the key a fee was last
+// registered under, and registering a fee object does not modify it.
+
+// Values of FeeQuote.Build: how FeeQuoteBuild fills the library object.
+const (
+	FeeBuildAddQuote   = 0 // two fee objects, AddQuote each (FeeQuoteToLibTagged)
+	FeeBuildShared     = 1 // ONE fee object registered under both types (only when both rates and relay rates are equal; else as 0)
+	FeeBuildFetched    = 2 // fee objects fetched with Fee() from another quote, where they sit under the other type
+	FeeBuildUnmarshal  = 3 // UnmarshalJSON of a complete document into a fresh quote
+	FeeBuildContainer  = 4 // default quote inside a FeeQuotes container, both fees set with UpdateMinerFees
+	FeeBuildUsedBefore = 5 // default quote used for one fee calculation, then a complete document unmarshalled into the same object
+)
+
+// FeeQuoteEdit is one exported way of changing a quote object that is in use.
+type FeeQuoteEdit struct {
+	// Via: "addquote" (or empty) | "shared" | "fetched" | "fetched-other-quote" | "unmarshal" |
+	// "unmarshal-partial" | "updateminerfees" | "expiry"
+	Via   string  `json:"via,omitempty"`
+	Data  bool    `json:"data,omitempty"`  // the data fee is the one replaced (else the standard fee)
+	Unit  FeeUnit `json:"unit,omitempty"`  // new mining rate of that type
+	Unit2 FeeUnit `json:"unit2,omitempty"` // unmarshal, unmarshal-partial: new mining rate of the other type
+	Tag   int     `json:"tag,omitempty"`   // FeeType field of a fee object built for the edit (FeeTag*)
+}
+
+func feeUnitOK(u FeeUnit) bool {
+	return u.Bytes >= 1 && u.Sat >= 0 && u.Sat <= 1000000 && u.Bytes <= 1000000
+}
+
+// FeeQuoteEditOK reports whether the edit is well formed (rates inside the domain of C10-C12).
+func FeeQuoteEditOK(e FeeQuoteEdit) bool {
+	switch e.Via {
+	case "", "addquote", "shared", "fetched-other-quote", "updateminerfees":
+		return feeUnitOK(e.Unit)
+	case "unmarshal", "unmarshal-partial":
+		return feeUnitOK(e.Unit) && feeUnitOK(e.Unit2)
+	case "fetched", "expiry":
+		return true
+	}
+	return false
+}
+
+type feeKept struct {
+	p    *bt.Fee
+	copy bt.Fee
+	what string
+}
+
+// FeeQuoteLib is a library quote object together with every fee object the caller (the
+// harness) handed to it or obtained from it.
+type FeeQuoteLib struct {
+	Q      *bt.FeeQuote
+	kept   []feeKept
+	miners *bt.FeeQuotes
+}
+
+func (l *FeeQuoteLib) keep(f *bt.Fee, what string) *bt.Fee {
+	l.kept = append(l.kept, feeKept{f, *f, what})
+	return f
+}
+
+// Unmodified checks that no fee object of the caller was changed by registering it (or by
+// anything else the library did): its fields are what they were when it was handed over.
+func (l *FeeQuoteLib) Unmodified() error {
+	for _, k := range l.kept {
+		if *k.p != k.copy {
+			return fmt.Errorf("the caller's fee object (%s) was %+v when it was handed to the library and is %+v now: registering a fee object modified it", k.what, k.copy, *k.p)
+		}
+	}
+	return nil
+}
+
+func feeJSON(mining, relay FeeUnit) string {
+	return fmt.Sprintf(`{"miningFee":{"satoshis":%d,"bytes":%d},"relayFee":{"satoshis":%d,"bytes":%d}}`, mining.Sat, mining.Bytes, relay.Sat, relay.Bytes)
+}
+
+func feeKeyOther(data bool) (key, other bt.FeeType) {
+	if data {
+		return bt.FeeTypeData, bt.FeeTypeStandard
+	}
+	return bt.FeeTypeStandard, bt.FeeTypeData
+}
+
+// FeeQuoteBuild builds the library object for the model in the way q.Build says.
+func FeeQuoteBuild(q FeeQuote) (*FeeQuoteLib, error) {
+	l := &FeeQuoteLib{}
+	switch q.Build {
+	case FeeBuildShared:
+		if q.Std == q.Data && q.StdRelay == q.DataRelay {
+			l.Q = bt.NewFeeQuote()
+			f := l.keep(FeeLibFee(bt.FeeTypeStandard, q.Std, q.StdRelay, q.StdTag), "one object registered under both types")
+			l.Q.AddQuote(bt.FeeTypeStandard, f)
+			l.Q.AddQuote(bt.FeeTypeData, f)
+			return l, nil
+		}
+	case FeeBuildFetched:
+		// quote A holds the model's data fee under "standard" and its standard fee under "data"
+		a := bt.NewFeeQuote()
+		a.AddQuote(bt.FeeTypeStandard, l.keep(FeeLibFee(bt.FeeTypeStandard, q.Data, q.DataRelay, q.DataTag), "registered in another quote as standard"))
+		a.AddQuote(bt.FeeTypeData, l.keep(FeeLibFee(bt.FeeTypeData, q.Std, q.StdRelay, q.StdTag), "registered in another quote as data"))
+		fs, err := a.Fee(bt.FeeTypeData)
+		if err != nil {
+			return nil, fmt.Errorf("Fee(data) on a quote both fees were added to: %v", err)
+		}
+		fd, err := a.Fee(bt.FeeTypeStandard)
+		if err != nil {
+			return nil, fmt.Errorf("Fee(standard) on a quote both fees were added to: %v", err)
+		}
+		l.Q = bt.NewFeeQuote()
+		l.Q.AddQuote(bt.FeeTypeStandard, l.keep(fs, "fetched from another quote (data) and registered as standard"))
+		l.Q.AddQuote(bt.FeeTypeData, l.keep(fd, "fetched from another quote (standard) and registered as data"))
+		return l, nil
+	case FeeBuildUnmarshal:
+		l.Q = bt.NewFeeQuote()
+		doc := `{"standard":` + feeJSON(q.Std, q.StdRelay) + `,"data":` + feeJSON(q.Data, q.DataRelay) + `}`
+		if err := l.Q.UnmarshalJSON([]byte(doc)); err != nil {
+			return nil, fmt.Errorf("UnmarshalJSON(%s): %v", doc, err)
+		}
+		return l, nil
+	case FeeBuildUsedBefore:
+		// the object is created with the default rates, used for a fee calculation, and only then
+		// given the model's rates with a complete document
+		l.Q = bt.NewFeeQuote()
+		if _, err := bt.NewTx().EstimateFeesPaid(l.Q); err != nil {
+			return nil, fmt.Errorf("EstimateFeesPaid on an empty transaction with the default quote: %v", err)
+		}
+		doc := `{"standard":` + feeJSON(q.Std, q.StdRelay) + `,"data":` + feeJSON(q.Data, q.DataRelay) + `}`
+		if err := l.Q.UnmarshalJSON([]byte(doc)); err != nil {
+			return nil, fmt.Errorf("UnmarshalJSON(%s): %v", doc, err)
+		}
+		return l, nil
+	case FeeBuildContainer:
+		l.miners = bt.NewFeeQuotes("miner")
+		if _, err := l.miners.UpdateMinerFees("miner", bt.FeeTypeStandard, l.keep(FeeLibFee(bt.FeeTypeStandard, q.Std, q.StdRelay, q.StdTag), "standard fee given to UpdateMinerFees")); err != nil {
+			return nil, fmt.Errorf("UpdateMinerFees(standard): %v", err)
+		}
+		if _, err := l.miners.UpdateMinerFees("miner", bt.FeeTypeData, l.keep(FeeLibFee(bt.FeeTypeData, q.Data, q.DataRelay, q.DataTag), "data fee given to UpdateMinerFees")); err != nil {
+			return nil, fmt.Errorf("UpdateMinerFees(data): %v", err)
+		}
+		fq, err := l.miners.Quote("miner")
+		if err != nil {
+			return nil, fmt.Errorf("Quote(miner): %v", err)
+		}
+		l.Q = fq
+		return l, nil
+	}
+	l.Q = bt.NewFeeQuote()
+	l.Q.AddQuote(bt.FeeTypeStandard, l.keep(FeeLibFee(bt.FeeTypeStandard, q.Std, q.StdRelay, q.StdTag), "standard fee"))
+	l.Q.AddQuote(bt.FeeTypeData, l.keep(FeeLibFee(bt.FeeTypeData, q.Data, q.DataRelay, q.DataTag), "data fee"))
+	return l, nil
+}
+
+// Apply performs the edit on the library object and on the model q.
+func (l *FeeQuoteLib) Apply(q *FeeQuote, e FeeQuoteEdit) error {
+	key, other := feeKeyOther(e.Data)
+	relay, orelay := &q.StdRelay, &q.DataRelay
+	if e.Data {
+		relay, orelay = &q.DataRelay, &q.StdRelay
+	}
+	switch e.Via {
+	case "", "addquote":
+		l.Q.AddQuote(key, l.keep(FeeLibFee(key, e.Unit, *relay, e.Tag), "fee given to AddQuote"))
+	case "shared": // one object under both types
+		f := l.keep(FeeLibFee(key, e.Unit, *relay, e.Tag), "one object registered under both types")
+		l.Q.AddQuote(key, f)
+		l.Q.AddQuote(other, f)
+	case "fetched": // the object registered under the other type is registered under this one as well
+		f, err := l.Q.Fee(other)
+		if err != nil {
+			return fmt.Errorf("Fee(%s): %v", other, err)
+		}
+		l.Q.AddQuote(key, l.keep(f, "fetched with Fee("+string(other)+") and registered as "+string(key)))
+	case "fetched-other-quote": // an object that sits in another quote under the other type
+		a := bt.NewFeeQuote()
+		a.AddQuote(other, l.keep(FeeLibFee(other, e.Unit, *relay, e.Tag), "registered in another quote as "+string(other)))
+		f, err := a.Fee(other)
+		if err != nil {
+			return fmt.Errorf("Fee(%s) on the other quote: %v", other, err)
+		}
+		l.Q.AddQuote(key, l.keep(f, "fetched from another quote ("+string(other)+") and registered as "+string(key)))
+	case "unmarshal", "unmarshal-partial":
+		doc := `{"` + string(key) + `":` + feeJSON(e.Unit, *relay)
+		if e.Via == "unmarshal" {
+			doc += `,"` + string(other) + `":` + feeJSON(e.Unit2, *orelay)
+		}
+		doc += `}`
+		if err := l.Q.UnmarshalJSON([]byte(doc)); err != nil {
+			return fmt.Errorf("UnmarshalJSON(%s): %v", doc, err)
+		}
+		if e.Via == "unmarshal-partial" { // the other type is (re-)registered explicitly before the next use
+			l.Q.AddQuote(other, l.keep(FeeLibFee(other, e.Unit2, *orelay, e.Tag), "fee given to AddQuote"))
+		}
+	case "updateminerfees":
+		if l.miners == nil {
+			l.miners = bt.NewFeeQuotes("some other miner")
+			l.miners.AddMiner("miner", l.Q)
+		}
+		got, err := l.miners.UpdateMinerFees("miner", key, l.keep(FeeLibFee(key, e.Unit, *relay, e.Tag), "fee given to UpdateMinerFees"))
+		if err != nil {
+			return fmt.Errorf("UpdateMinerFees: %v", err)
+		}
+		if got != l.Q {
+			return fmt.Errorf("UpdateMinerFees returned a quote object other than the one registered for the miner")
+		}
+	case "expiry":
+		l.Q.UpdateExpiry(time.Unix(1700000000+int64(e.Unit.Sat), 0).UTC())
+	default:
+		return fmt.Errorf("harness: unknown quote edit %q", e.Via)
+	}
+	FeeQuoteEditModel(q, e)
+	return nil
+}
+
+// FeeQuoteEditModel applies the edit to the model only: what the quote must answer afterwards.
+func FeeQuoteEditModel(q *FeeQuote, e FeeQuoteEdit) {
+	rate, relay, tag := &q.Std, &q.StdRelay, &q.StdTag
+	orate, orelay := &q.Data, &q.DataRelay
+	if e.Data {
+		rate, relay, tag = &q.Data, &q.DataRelay, &q.DataTag
+		orate, orelay = &q.Std, &q.StdRelay
+	}
+	switch e.Via {
+	case "", "addquote", "updateminerfees":
+		*rate, *tag = e.Unit, e.Tag
+	case "shared":
+		*rate, *orate, *orelay = e.Unit, e.Unit, *relay
+	case "fetched":
+		*rate, *relay = *orate, *orelay
+	case "fetched-other-quote":
+		*rate = e.Unit
+	case "unmarshal", "unmarshal-partial":
+		*rate, *orate = e.Unit, e.Unit2
+	}
 }
